@@ -440,6 +440,52 @@ def run(ctx):
             r.fail(m, c, norm(c) + " cannot-parse not caught", "the cannot-parse error is not caught around the trial parse")
         elif ok_:
             r.ok("%s: %s under except %s only" % (m.short, norm(c), cannot.name))
+
+    # ---------------------------------------------------------------- R15
+    r = ctx.rule("C03-R15", "KEY", "'with no leading tokens the application's default command is selected': on the empty-line arm of resolve, what is resolved is what "
+                 "process_default_commands chose - its result goes to create_resolved_command as it is, not through the sub-command walk", reference=1)
+    rs = res.methods.get("resolve")
+    ctx.require(rs is not None, "DefaultResolver.resolve missing")
+    rcfg = ctx.cfg(rs)
+    n15 = 0
+    for n in rcfg.nodes:
+        if n.kind != "stmt" or not isinstance(n.ast, ast.Assign) or not (isinstance(n.ast.value, ast.Call) and isinstance(n.ast.value.func, ast.Attribute) and n.ast.value.func.attr == "process_default_commands"):
+            continue
+        var = n.ast.targets[0].id if isinstance(n.ast.targets[0], ast.Name) else None
+        others = [w.id for w in rcfg.writes(lambda t: t == var) if w.id != n.id]
+        for ret in [x for x in rcfg.nodes if x.kind == "return" and x.id in rcfg.reach([n.id], blocked=others)]:
+            v = ret.ast.value
+            if not (isinstance(v, ast.Call) and isinstance(v.func, ast.Attribute) and v.func.attr == "create_resolved_command"):
+                continue
+            n15 += 1
+            a0 = v.args[0] if v.args else None
+            if isinstance(a0, ast.Name) and a0.id == var:
+                r.ok("%s: the default command chosen is resolved as it is" % rs.short)
+            else:
+                r.fail(rs, ret.ast, "empty-line arm resolves %s" % norm(a0)[:60], "%s does not resolve the command that process_default_commands chose but %s: an empty line no longer selects the application's "
+                       "default command (when the default has a default sub-command of its own, that one runs, or the line is rejected)" % (rs.short, norm(a0)[:80]))
+    ctx.require(n15 >= 1, "the empty-line arm of DefaultResolver.resolve (process_default_commands -> create_resolved_command) was not found")
+
+    # ---------------------------------------------------------------- R16
+    r = ctx.rule("C03-R16", "ORDER", "'every tree of commands': the tree is built from the configuration as the CONFIG listeners left it - in the application's constructor the "
+                 "CONFIG event is dispatched before the first command is added and before the command configs are read", reference=1)
+    capp = ctx.cls("clikit.console_application.ConsoleApplication")
+    ci = capp.methods.get("__init__")
+    ctx.require(ci is not None, "ConsoleApplication.__init__ missing")
+    icfg = ctx.cfg(ci)
+    disp = [x for c in q.calls(ci) if isinstance(c.func, ast.Attribute) and c.func.attr == "dispatch" and c.args and norm(c.args[0]).endswith("CONFIG") for x in icfg.nodes_of(c)]
+    if not disp:
+        r.vacuous_ok = True
+        r.note("the constructor dispatches no CONFIG event")
+    else:
+        uses = [x for c in q.calls(ci) if isinstance(c.func, ast.Attribute) and c.func.attr in ("add_command", "add_commands") for x in icfg.nodes_of(c)]
+        uses += [x for a in walk_no_nested(ci.node) if isinstance(a, ast.Attribute) and a.attr in ("command_configs", "default_commands") and isinstance(a.value, ast.Name) and a.value.id == "config" for x in icfg.nodes_of(a)]
+        early = [u for u in uses if any(d.id in icfg.reach_strict(u.id) for d in disp)]
+        if early:
+            r.fail(ci, early[0].ast, "command tree built before the CONFIG event", "%s builds (part of) the command tree before it dispatches the CONFIG event: commands, sub-commands and default flags a CONFIG "
+                   "listener adds never reach the tree - such a command is reported as not defined" % ci.short)
+        else:
+            r.ok("%s: CONFIG is dispatched before %d uses of the command configuration" % (ci.short, len(uses)))
     return ctx.results
 
 
